@@ -239,6 +239,8 @@ def replay(rep):
         print(json.dumps(rep, indent=1)[:6000])
         return 1
     case = rep["case"]
+    if "program_seed" in case:
+        return _replay_crash(case)
     if "prog" not in case:
         print(json.dumps(rep, indent=1)[:6000])
         return 1
@@ -269,5 +271,47 @@ def replay(rep):
         if not probs:
             print("the partial read agrees with the corresponding part of the full read")
         return 1 if probs else 0
+    finally:
+        shutil.rmtree(tmp, ignore_errors=True)
+
+
+def _replay_crash(case):
+    """the recorded dataset killed its worker: re-run its programs one per child process and name the one that dies"""
+    import random
+    import shutil
+    import tempfile
+    warnings.filterwarnings("ignore")
+    C.use_shadow()
+    from harness import reads as R
+    tmp = tempfile.mkdtemp(prefix="verif-C06-replay-", dir="/tmp")
+    try:
+        ds = case["ds"]
+        path = R.build_dataset(ds, tmp)
+        pf = R.open_dataset(ds, path)
+        base = R.base_facts(ds, pf)
+        progs = case.get("programs")
+        if progs is None:
+            rng = random.Random(case["program_seed"])
+            progs = [R.gen_program(rng, ds, base["avail"], base["cols"], base["cat_cols"]) for _ in range(case["nprog"])]
+            progs += R.confirmation_programs(rng, ds, base)
+        print("dataset: %s" % json.dumps(ds))
+        for prog in progs:
+            pid = os.fork()
+            if pid == 0:
+                try:
+                    res = R.run_program(pf, prog)
+                    R.oracle(base, prog, res)
+                    if res[0] == "ok" and not isinstance(res[1], int):
+                        for df in res[1]:
+                            repr(df)
+                finally:
+                    os._exit(0)
+            _, status = os.waitpid(pid, 0)
+            if os.WIFSIGNALED(status):
+                print("program: %s" % json.dumps(prog))
+                print("PROPERTY FAILS: the process running this access program was killed by signal %d" % os.WTERMSIG(status))
+                return 1
+        print("no access program of this dataset killed its process this time (%d programs)" % len(progs))
+        return 0
     finally:
         shutil.rmtree(tmp, ignore_errors=True)
